@@ -112,7 +112,31 @@ void h_%(name)s(void)
 }
 """
 
+# L2: everything after the multiplication (modf, scaling by 2^32, the additions, the two conversions, the shift) is monotone in
+# the product, and the conversions stay in range. The slice is the real body from the declaration of hi_bits to the return.
+H_L2 = r"""
+double cex_p1, cex_p2;
+void h_%(name)s(void)
+{
+  xc_havoc_ghosts();
+  double p1, p2;
+  __CPROVER_assume(p1 >= 0.0 && p1 <= p2 && p2 < 4294967295.0);      /* product = UINT32_MAX * ratio with 0 < ratio < 1 */
+  %(range)s
+  cex_p1 = p1; cex_p2 = p2;
+  uint64_t t1 = CalculateThreshold_after_product(&p1), t2 = CalculateThreshold_after_product(&p2);
+  __CPROVER_assert(t1 <= t2, "MONO-L2: the threshold is monotone in the product UINT32_MAX * ratio");
+  __CPROVER_assert(0, "XC_CANARY end of harness reachable");
+}
+"""
+SLICE_L2 = {"func": ("CalculateThreshold", 1), "from": "hi_bits", "to": "$return", "cname": "CalculateThreshold_after_product"}
+
 proofs = [
+    Proof("Threshold_L2_quick", [SLICE_L2], harness=H_L2 % {"name": "Threshold_L2_quick",
+          "range": "__CPROVER_assume(p2 - p1 <= 4.0);"}, loop_contracts=False, solver="portfolio3", timeout=600,
+          check_flags=["--conversion-check"],
+          desc="L2 restricted to products at most 4 apart (covers every carry pattern between neighbouring integers); full range in the thorough tier"),
+    Proof("Threshold_L2", [SLICE_L2], harness=H_L2 % {"name": "Threshold_L2", "range": ""}, loop_contracts=False, solver="portfolio3", timeout=3000,
+          tier="thorough", check_flags=["--conversion-check"], desc="L2 for every pair of products in [0, 2^32-1)"),
     Proof("CalculateThreshold", [("CalculateThreshold", 1)], enforce="CalculateThreshold", check_flags=["--conversion-check", "--float-overflow-check", "--nan-check"]),
     Proof("CTFB_deterministic", [("CalculateThresholdFromBuffer", 1)], harness=H_CTFB, loop_contracts=False, unwind=10, solver="portfolio3",
           complete_unwind_note="loop free apart from the 8-iteration loop of the harness"),
@@ -130,6 +154,9 @@ proofs = [
 ]
 trusted = ("boundary shims for the delegate sampler and trace state handles",)
 assumptions = (
+    "monotonicity ratio1 <= ratio2 => threshold(ratio1) <= threshold(ratio2) is decomposed as L1 (correctly rounded multiplication by the positive constant "
+    "UINT32_MAX is monotone and maps (0,1) into [0, 2^32-1): ASSUMED, every back end timed out on it, see Threshold_monotone in the thorough tier) and "
+    "L2 (the rest of CalculateThreshold is monotone in the product: proved on the extracted slice) plus the two early returns (proved: Threshold_monotone_edges)",
     "ldexp(x, 32) == x * 2^32 exactly (xc_ldexp shim; CBMC has no body for ldexp); modf as modelled by CBMC's library",
     "doubles are IEEE-754 binary64, round to nearest even",
     "NaN ratios are outside the statement (precondition)",
@@ -171,4 +198,29 @@ def refute_search(mod, proof, violations, ix, workdir, seed):
     return r if r["reproduced"] else None
 
 
-refuters = {p.name: (refute_mono if "monotone" in p.name or p.name == "CalculateThreshold" else refute_search) for p in proofs}
+def refute_l2(mod, proof, violations, ix, workdir, seed):
+    """the verifier's counterexample is a pair of products; the ratios product / UINT32_MAX (and their neighbours) are replayed natively"""
+    import struct
+    vals = R.leaf_trace(workdir, proof.name, violations[0]["obligation"]) or {}
+    a, b = _bits(vals, "cex_p1"), _bits(vals, "cex_p2")
+    if a is None or b is None:
+        return refute_search(mod, proof, violations, ix, workdir, seed)
+    p1 = struct.unpack("<d", struct.pack("<Q", a))[0]
+    p2 = struct.unpack("<d", struct.pack("<Q", b))[0]
+    import math
+    def nb(x):
+        return [x, math.nextafter(x, 0.0), math.nextafter(x, 2.0)]
+    for r1 in nb(p1 / 4294967295.0):
+        for r2 in nb(p2 / 4294967295.0):
+            if not (0.0 < r1 <= r2 < 1.0):
+                continue
+            b1 = struct.unpack("<Q", struct.pack("<d", r1))[0]
+            b2 = struct.unpack("<Q", struct.pack("<d", r2))[0]
+            r = R.native_check(DRIVER[0], DRIVER[1], ["mono", "0x%016x" % b1, "0x%016x" % b2], DRIVER_FLAGS, repo_sources=DRIVER[2])
+            if r["reproduced"]:
+                r["input"] = {"ratio1": repr(r1), "ratio2": repr(r2), "verifier_products": [repr(p1), repr(p2)]}
+                return r
+    return refute_search(mod, proof, violations, ix, workdir, seed)
+
+
+refuters = {p.name: (refute_l2 if "_L2" in p.name else refute_mono if "monotone" in p.name or p.name == "CalculateThreshold" else refute_search) for p in proofs}
